@@ -169,12 +169,6 @@ def request_refs_freed(p, mem=None):
     return out
 
 
-def record_refs_request(p, mem=None):
-    m = p.m
-    mem = m.mem if mem is None else mem
-    return [show_loc(loc) for loc, v in mem.items() if loc[0][0] == 'H' and h19.mentions(v, lambda x: x == REQUEST)]
-
-
 def outcome_of(p, what):
     for (key, c, n, label) in p.trail:
         if isinstance(key, tuple) and key[0] == what:
@@ -304,6 +298,12 @@ def _expiry_refreshed(ev, reg):
     return False
 
 
+def _is_handler(ctx, v):
+    """v is the address of a function with a body"""
+    f = ctx.prog.funcs.get(v[1]) if isinstance(v, tuple) and v[0] == 'fn' else None
+    return f is not None and bool(f.blocks)
+
+
 def escalation(ctx):
     st = roots(ctx)
     clo = st['close']
@@ -362,8 +362,12 @@ def escalation(ctx):
                 n_alive += 1
                 tm = [(loc, r) for loc, r in s['reg'].items() if r['kind'] == 'timer']
                 wi = [(loc, r) for loc, r in s['reg'].items() if r['kind'] == 'wait interest']
-                good = (len(tm) == 1 and len(wi) == 1 and tm[0][1]['handler'] == ('fn', s['fired']) and rec and tm[0][1]['cookie'] == ('addr', (('H', rec[0]),))
-                        and tm[0][0][0] == ('H', rec[0]) and all(x == 'live' for x in s['heap'].values()) and not vs
+                # which handler and which cookie the timer is re-armed with is not prescribed (the handler may hand over to a
+                # second stage, the cookie may be the embedded timer): the next firing is evaluated through whatever was
+                # installed and must again send one signal through the registered interest without touching anything released
+                good = (len(tm) == 1 and len(wi) == 1 and _is_handler(ctx, tm[0][1]['handler']) and rec
+                        and tm[0][0][0][0] == 'H' and sg[-1]['obj'] == wi[0][0]
+                        and all(x == 'live' for x in s['heap'].values()) and not vs
                         and all(e['expires_set'] and _expiry_refreshed(ev, e) for e in ev if e['kind'] == 'timer-register'))
                 if not good:
                     alive_ok = False
@@ -386,7 +390,8 @@ def escalation(ctx):
            detail='whenever the kill helper reports the child gone, the interest is unregistered, the record freed, and neither a signal nor a '
                   'timer registration follows; %s' % (gone_det or ('evaluated at %d firings' % n_gone)), fn=hname)
     ctx.ob('R-C19b', 'timer:alive-rearms', alive_ok and n_alive > 0, loc=hloc,
-           detail='while the helper delivers the signal the record\'s timer is registered again (same handler, record as cookie, expiry written anew) and nothing is released; %s'
+           detail='while the helper delivers the signal (through the registered interest) exactly one timer, inside an allocated object, is registered again '
+                  '(handler function, expiry written anew), the interest stays and nothing is released; %s'
                   % (alive_det or ('evaluated at %d firings' % n_alive)), fn=hname)
     ctx.ob('R-C19b', 'timer:term-then-kill', seq_ok and bool(seq_det), loc=sloc or hloc,
            detail='SIGTERM first, SIGKILL eventually and from then on; %s' % seq_det, fn=hname)
@@ -539,30 +544,53 @@ def detach(ctx):
             tm = [(loc, r) for loc, r in s['reg'].items() if r['kind'] == 'timer']
             if tm:
                 aloc = tm[0][1]['loc'] or aloc
-            if len(tm) != 1 or not rec or tm[0][0][0] != ('H', rec[0]):
+            if len(tm) != 1 or not rec or tm[0][0][0][0] != 'H' or s['heap'].get(tm[0][0][0][1]) != 'live':
                 ok = False
-                dets.append('no kill timer inside the record is registered after close (registered: %s)' % [r['kind'] for r in s['reg'].values()])
+                dets.append('no kill timer inside a live allocated object is registered after close (registered: %s)' % [r['kind'] for r in s['reg'].values()])
             else:
                 r = tm[0][1]
-                if r['handler'][0] != 'fn' or ctx.prog.funcs.get(r['handler'][1]) is None or r['cookie'] != ('addr', (('H', rec[0]),)):
+                if not _is_handler(ctx, r['handler']):
                     ok = False
-                    dets.append('the armed timer has handler %s and cookie %s (expected a function and the record)' % (show(r['handler']), show(r['cookie'])))
+                    dets.append('the armed timer has handler %s (expected a function)' % show(r['handler']))
                 if any(e['kind'] == 'timer-register' and not e['expires_set'] for e in p.log(s)):
                     ok = False
                     dets.append('the timer is registered with an expiry time that was never written')
             if not any(r['kind'] == 'wait interest' for r in s['reg'].values()):
                 ok = False
                 dets.append('the wait interest is gone although the child is still running')
-            refs = record_refs_request(p, s['mem'])
-            if refs:
-                ok = False
-                dets.append('the record still refers to the request through %s: the exit notification would write into a request the caller may have released' % refs)
             if p.viol(s) or any(x != 'live' for x in s['heap'].values()):
                 ok = False
                 dets.append('%s %s' % (vtext(p.viol(s)), 'record freed in close' if any(x != 'live' for x in s['heap'].values()) else ''))
+        # detached is a statement about behaviour, not about which pointers the record still holds: whatever can run after
+        # close (the armed timer with both helper outcomes, the exit notification with every kind of status) is run, and
+        # none of it may read or write the request (the caller may have released it) or anything freed; the timer firing
+        # must reach the kill helper on the registered interest (so handler and cookie, whatever they are, lead to the record)
+        after = [('timer', lifecycle(ctx, mode, ['close', ('timers', 2)], dict(ALL_OK)))]
+        for name, stt in TERMINATING + NON_TERMINATING:
+            after.append((name, lifecycle(ctx, mode, ['close', ('exit', stt)], dict(ALL_OK))))
+        for what, ps in after:
+            for p in ps:
+                cs = p.step('close')
+                if cs is None:
+                    continue
+                later = p.steps[p.steps.index(cs) + 1:]
+                if not later or any(x['fired'] is None for x in later):
+                    ok = False
+                    dets.append('after close nothing can be run for %s (%s)' % (what, p.end))
+                bad = [v for x in later for v in p.viol(x)]
+                if bad:
+                    ok = False
+                    dets.append('after close, %s: %s' % (what, vtext(bad)))
+                if what == 'timer':
+                    for x in later:
+                        sg = [e for e in p.log(x) if e['kind'] == 'signal']
+                        if x['fired'] and not (sg and all(e['obj'] in cs['reg'] and cs['reg'][e['obj']]['kind'] == 'wait interest' for e in sg)):
+                            ok = False
+                            dets.append('the armed timer does not signal through the wait interest of the running child')
         ctx.ob('R-C19d', 'close:type-%s:running-child-detached-and-armed' % mode, ok, loc=aloc,
-               detail='after close with the child still running: the record holds no reference to the request, its kill timer is registered with the '
-                      'record as cookie, the wait interest stays; %s' % '; '.join(dets[:3]), fn=clo.q)
+               detail='after close with the child still running: one kill timer (handler function, written expiry) inside the allocated record is '
+                      'registered, the wait interest stays, and nothing that can run afterwards (timer firing, exit notification) touches the '
+                      'request or released memory; %s' % '; '.join(sorted(set(dets))[:3]), fn=clo.q)
     # -- close after the child ended: nothing happens
     paths = lifecycle(ctx, 'r', [('exit', 0), 'close'], dict(ALL_OK))
     ok, dets = bool(paths), []
